@@ -362,7 +362,8 @@ def s_stream_case(draw):
             "offset": offset, "prepos": prepos, "buffer_now": draw(st.booleans()),
             "mutate": draw(st.binary(max_size=8)),
             "short": draw(st.sampled_from([None, None, 1, 2, 3])) if kind == "stream" else None,
-            "two_iterators": draw(st.booleans()),
+            "two_iterators": draw(st.booleans()), "fill_late": draw(st.booleans()),
+            "via_attach_file": draw(st.booleans()),
             "default_chunk": draw(st.booleans()) and chunk_size == 4096}
 
 
@@ -405,10 +406,17 @@ def run_stream(spec):
     ct = ContentType("application", "octet-stream")
     tag = spec["kind"]
     if spec["kind"] == "stream":
-        s = LoggedStream(data, spec.get("short"))
+        fill_late = spec.get("fill_late") and not spec["buffer_now"]
+        s = LoggedStream(b"" if fill_late else data, spec.get("short"))
         s.seek(spec["prepos"])
         s.ops.clear()
         c = content_from_stream(s, ct, buffer_now=spec["buffer_now"], **kw)
+        if fill_late:
+            # nothing of the stream is looked at before the content is iterated: the data arrives only now
+            s.seek(0)
+            s.write(data)
+            s.seek(spec["prepos"])
+            s.ops.clear()
         ops_at_construction = list(s.ops)
         if spec["buffer_now"]:
             if not any(o[0] == "read" for o in ops_at_construction):
@@ -440,7 +448,28 @@ def run_stream(spec):
         path = os.path.join(_workdir(), "f")
         if os.path.exists(path):
             os.unlink(path)
-        if spec["buffer_now"]:
+        if spec.get("via_attach_file") and spec["offset"] is None:
+            # the convenience wrapper hands chunk_size and buffer_now on positionally
+            from testtools.content import attach_file
+
+            class Detailed:
+                def __init__(self):
+                    self.details = {}
+
+                def addDetail(self, name, content):
+                    self.details[name] = content
+            holder = Detailed()
+            if spec["buffer_now"]:
+                with open(path, "wb") as f:
+                    f.write(data)
+            attach_file(holder, path, "att", ct, 4096 if spec["default_chunk"] else cs, spec["buffer_now"])
+            with open(path, "wb") as f:
+                f.write(spec["mutate"] if spec["buffer_now"] else data)
+            if list(holder.details) != ["att"] or holder.details["att"].content_type != ct:
+                vs.append(V("stream-bytes", "attach_file-detail", "attach_file registered %r" % (holder.details,)))
+                return Case(vs, True, ["attach_file"])
+            c = holder.details["att"]
+        elif spec["buffer_now"]:
             with open(path, "wb") as f:
                 f.write(data)
             c = content_from_file(path, ct, buffer_now=True, **kw)
